@@ -146,18 +146,25 @@ def execTail (i : TailIn) : TailOut :=
 /-! ### how often a dependency's command runs in one build (execute.go LoadDependencyOutputs)
 
 In `load_outputs=minimal` mode the task of a target that has to execute first loads the outputs of its
-direct dependencies; `if loadErr != nil || localDep.SkipsCache()` it re-runs the dependency's command
-inside its own task. A dependency therefore runs once in its own task plus once per executing
-dependant for which that condition holds. -/
+direct dependencies and re-runs a dependency inside its own task
+`if loadErr != nil || (localDep.SkipsCache() && !producedInThisBuild)` (after the repair of
+F-nocache-rerun, commit e34dacb; before it the condition was `loadErr != nil || localDep.SkipsCache()`).
+A dependency therefore runs once in its own task plus once per executing dependant for which that
+condition holds. -/
 
 structure RerunCfg where
   minimal   : Bool   -- load_outputs=minimal
   noCache   : Bool   -- the dependency carries the `no-cache` tag
   loadFails : Bool   -- cache fault: its outputs cannot be loaded
-  dependantsExecuting : Nat  -- direct dependants that execute in this build
+  producedInThisBuild : Bool  -- `OutputsLoaded`: its own task already produced the outputs in this build
+  dependantsExecuting : Nat   -- direct dependants that execute in this build
   deriving DecidableEq, Repr
 
 def execCount (c : RerunCfg) : Nat :=
-  1 + (if c.minimal && (c.noCache || c.loadFails) then c.dependantsExecuting else 0)
+  1 + (if c.minimal && (c.loadFails || (c.noCache && !c.producedInThisBuild)) then c.dependantsExecuting else 0)
+
+/-- the code before the repair -/
+def execCountOld (c : RerunCfg) : Nat :=
+  1 + (if c.minimal && (c.loadFails || c.noCache) then c.dependantsExecuting else 0)
 
 end Grog.Pool
